@@ -1056,7 +1056,7 @@ def rules(repo, tier):
     from ..callsig import rule_callsig
     from ..docsig import rule_docsig
     from ..axisdefault import rule_axisdefault
-    return list(_rules_core(repo, tier)) + [__import__('sa.rules.c03', fromlist=['x']).rule_homo(repo, 'C04.HOMO'), rule_scalei(repo), rule_once(repo), __import__('sa.mode', fromlist=['x']).rule_tempset(repo, 'C04.TEMPJAC', ['pypose.func.jac', 'pypose.optim.functional']), __import__('sa.rules.c06', fromlist=['x']).rule_bcast(repo, tier, 'C04'), rule_memo(repo, 'C04.MEMO', 'history independence: nothing computed from the contents of a tensor argument is kept '
+    return list(_rules_core(repo, tier)) + __import__('sa.core', fromlist=['x']).reid([__import__('sa.rules.c05', fromlist=['x']).rule_blocks(repo)], 'C04') + [__import__('sa.rules.c03', fromlist=['x']).rule_homo(repo, 'C04.HOMO'), rule_scalei(repo), rule_once(repo), __import__('sa.mode', fromlist=['x']).rule_tempset(repo, 'C04.TEMPJAC', ['pypose.func.jac', 'pypose.optim.functional']), __import__('sa.stale', fromlist=['x']).rule_firstrep(repo, 'C04.FIRSTJAC', ['pypose.func.jac', 'pypose.optim.functional']), __import__('sa.axisdefault', fromlist=['x']).rule_flatcat(repo, 'C04.FLATCAT', ['pypose.func.jac', 'pypose.optim.functional', 'pypose.optim.optimizer']), __import__('sa.rules.c06', fromlist=['x']).rule_bcast(repo, tier, 'C04'), rule_memo(repo, 'C04.MEMO', 'history independence: nothing computed from the contents of a tensor argument is kept '
                                                       'under the identity, address or version of that tensor, in module-level storage, or published from a generator '
                                                       'before it is complete - a later call with the same object and other contents must not be answered from it',
                                                       ['pypose.lietensor.lietensor', 'pypose.lietensor.operation', 'pypose.lietensor.basics', 'pypose.lietensor.utils'], floor=3),
